@@ -5,7 +5,7 @@ import numpy as np
 import scipy.optimize
 from hypothesis import strategies as st
 
-from ..core import Given
+from ..core import Given, deep
 from ..findings import is_open
 
 from cherab.tools.inversions import (invert_sart, invert_constrained_sart, invert_regularised_nnls,
@@ -166,7 +166,7 @@ DEFAULTS = {"max_it": 250, "relax": 1.0, "conv_tol": 1.0e-4, "beta": 0.01, "alph
 
 
 # ------------------------------------------------------------------------------------------------ strategies
-_dim = st.one_of(st.integers(1, 4), st.integers(1, 12))
+_dim = st.one_of(st.integers(1, 4), st.integers(1, 12), st.integers(1, deep(12, 40)))
 _entry = st.one_of(st.just(0.0), st.integers(0, 16).map(lambda k: k / 8.0), st.floats(0.01, 1.0))
 _dense_entry = st.one_of(st.integers(1, 16).map(lambda k: k / 8.0), st.floats(0.01, 1.0))
 _FACTOR = st.sampled_from([1.0, 1.0, 2.0, 0.5])
